@@ -42,6 +42,54 @@ TTSet(tt) == {a \in Univ(n) : Bit(tt, a + 1)}     \* truth table (as an integer)
 Idx(q) == DOMAIN q
 FirstBad(q, P(_)) == IF \A i \in Idx(q) : P(i) THEN 0 ELSE CHOOSE i \in Idx(q) : ~P(i) /\ \A j \in 1..(i - 1) : P(j)
 
+(* C13 preconditions, re-evaluated by TLC; rows outside them are not judged *)
+RelPrecondition(e, operand) ==
+  LET keys == SeqSet(e.names)  vals == SeqSet(e.tos) IN
+  /\ keys \cap vals = {}
+  /\ (e.op = "row.preimage" =>
+        \A i \in DOMAIN e.names : Abs(LevelOf(S, e.names[i]) - LevelOf(S, e.tos[i])) = 1)
+  /\ (e.op = "row.image" =>
+        \A nm \in vals : nm \in SeqSet(e.qvars)
+            \/ (NameIdx(S, nm) \notin Support(n, Den(S, e.trans))
+                /\ NameIdx(S, nm) \notin Support(n, Den(S, operand))))
+
+PreimageOK(e, i) ==
+  LET ren == [k \in {NameIdx(S, e.names[j]) : j \in DOMAIN e.names} |->
+                NameIdx(S, e.tos[CHOOSE j \in DOMAIN e.names : NameIdx(S, e.names[j]) = k])]
+      K == VarNums(S, SeqSet(e.qvars))
+  IN ~RelPrecondition(e, e.us[i]) \/
+     ResultIs(S, e.rs[i], PreimageF(n, Den(S, e.trans), Den(S, e.us[i]), ren, K, e.forall))
+(* the target itself mentions a variable that the renaming maps TO (a primed
+   variable): inside the stated preconditions, reported under its own clause *)
+PrimedOperand(e, operand) ==
+  \E nm \in SeqSet(e.tos) : NameIdx(S, nm) \in Support(n, Den(S, operand))
+(* C18: an exported graph g = [nodes: <<id, level>>..., edges: <<u, v, then?, complement?>>...,
+   roots: signed root references].  It must contain exactly the reachable
+   nodes, with their levels, and evaluating it (solid/then, dashed/else,
+   complement marks) must give the function of each root. *)
+GraphOK(g) ==
+  LET ids == {g.nodes[i][1] : i \in DOMAIN g.nodes}
+      lvl == [x \in ids |-> g.nodes[CHOOSE i \in DOMAIN g.nodes : g.nodes[i][1] = x][2]]
+      outs(x) == {i \in DOMAIN g.edges : g.edges[i][1] = x}
+      thenE(x) == {i \in outs(x) : g.edges[i][3]}
+      elseE(x) == {i \in outs(x) : ~g.edges[i][3]}
+      \* a node has no out-edges (terminal) or then- and else-edges; parallel
+      \* duplicates (a multigraph export of u and -u) must agree with each other
+      same(I) == \A i, j \in I : g.edges[i][2] = g.edges[j][2] /\ g.edges[i][4] = g.edges[j][4]
+      shape == \A x \in ids : (outs(x) = {} \/ (thenE(x) # {} /\ elseE(x) # {} /\ same(thenE(x)) /\ same(elseE(x))))
+      succ == [x \in ids |->
+                IF outs(x) = {} THEN <<lvl[x], 0, 0>>
+                ELSE LET t == g.edges[CHOOSE i \in thenE(x) : TRUE]
+                         f == g.edges[CHOOSE i \in elseE(x) : TRUE]
+                     IN <<lvl[x], IF f[4] THEN -f[2] ELSE f[2], IF t[4] THEN -t[2] ELSE t[2]>>]
+      G == [names |-> S0.names, order |-> S0.order, succ |-> succ]
+  IN /\ shape
+     /\ ids = Reach(S, SeqSet(g.roots) \cup {1})             \* exactly the reachable nodes
+     /\ \A x \in ids : lvl[x] = Lvl(S, x)
+     /\ \A i \in DOMAIN g.edges : g.edges[i][2] \in ids
+     /\ AllWellFormed(G)
+     /\ \A i \in DOMAIN g.roots : DenSlow(G, g.roots[i]) = Den(S, g.roots[i])
+
 RowBad(e) ==    \* position of the first failing element of the row (0 = row accepted)
   CASE e.op = "row.apply" ->
          FirstBad(e.vs, LAMBDA i : ApplyBinC(S, S, e.sym, e.u, e.vs[i], e.rs[i]))
@@ -98,6 +146,32 @@ RowBad(e) ==    \* position of the first failing element of the row (0 = row acc
            ELSE /\ Den(S, e.us[i]) # {}
                 /\ CubeF(n, AsgFn(S, e.ms[i])) \subseteq Den(S, e.us[i])
                 /\ VarNums(S, SeqSet(e.care)) \subseteq DOMAIN AsgFn(S, e.ms[i]))
+    [] e.op = "row.preimage" ->
+         FirstBad(e.us, LAMBDA i : PrimedOperand(e, e.us[i]) \/ PreimageOK(e, i))
+    [] e.op = "row.image" ->
+         LET ren == [k \in {NameIdx(S, e.names[i]) : i \in DOMAIN e.names} |->
+                       NameIdx(S, e.tos[CHOOSE i \in DOMAIN e.names : NameIdx(S, e.names[i]) = k])]
+             K == VarNums(S, SeqSet(e.qvars))
+             T == Den(S, e.trans)
+         IN FirstBad(e.us, LAMBDA i :
+              \/ ~RelPrecondition(e, e.us[i])
+              \/ e.rs[i] = 0 /\ ~e.adjacent      \* image may refuse pairs that are not adjacent
+              \/ ResultIs(S, e.rs[i], ImageF(n, T, Den(S, e.us[i]), ren, K, e.forall)))
+    [] e.op = "row.shannon" ->      \* u.var / u.low / u.high / u.negated reproduce u
+         FirstBad(e.us, LAMBDA i :
+           IF Abs(e.us[i]) = 1 THEN e.vars[i] = "" /\ e.lows[i] = 0 /\ e.highs[i] = 0
+           ELSE /\ IsRef(S, e.lows[i]) /\ IsRef(S, e.highs[i]) /\ Known(S, e.vars[i])
+                /\ e.negs[i] = (e.us[i] < 0)
+                /\ e.levels[i] = LevelOf(S, e.vars[i])
+                /\ LET E == IteF(VarF(n, NameIdx(S, e.vars[i])), Den(S, e.highs[i]), Den(S, e.lows[i]))
+                   IN Den(S, e.us[i]) = (IF e.negs[i] THEN NotF(n, E) ELSE E))
+    [] e.op = "row.descendants" ->
+         FirstBad(e.rootsets, LAMBDA i :
+           SeqSet(e.sets[i]) = Reach(S, SeqSet(e.rootsets[i]) \cup {1}))
+    [] e.op = "row.size" ->
+         FirstBad(e.us, LAMBDA i : e.sizes[i] = Cardinality(Reach(S, {e.us[i], 1})))
+    [] e.op = "row.graph" ->        \* an exported graph (to_nx / DOT): evaluate it
+         FirstBad(e.graphs, LAMBDA i : GraphOK(e.graphs[i]))
     [] OTHER -> -1
 
 RowClause(e) ==
@@ -117,6 +191,12 @@ RowClause(e) ==
     [] e.op = "row.count" -> "sat.count"
     [] e.op = "row.pick_iter" -> "sat.pick.cover"
     [] e.op = "row.pick" -> "sat.pick.model"
+    [] e.op = "row.preimage" -> "rel.preimage"
+    [] e.op = "row.image" -> "rel.image"
+    [] e.op = "row.shannon" -> "view.shannon"
+    [] e.op = "row.descendants" -> "view.descendants"
+    [] e.op = "row.size" -> "view.size"
+    [] e.op = "row.graph" -> "view." \o e.kind
     [] OTHER -> "trace.unknown_op"
 
 HeldN(s) == {x \in Nodes(s) : s.ext[x] > 0}
@@ -139,10 +219,15 @@ Next == /\ l < NL
         /\ LET e == Lines[l + 1] IN
            IF e.op = "end"
            THEN (IF EndClauses = {} THEN TRUE ELSE PrintT(<<"VERDICT", Lines[1].t, l + 1, EndClauses, 0>>))
-           ELSE LET b == RowBad(e) IN
-                IF b = 0 THEN TRUE
-                ELSE IF b = -1 THEN PrintT(<<"VERDICT", Lines[1].t, l + 1, {"trace.unknown_op"}, 0>>)
-                ELSE PrintT(<<"VERDICT", Lines[1].t, l + 1, {RowClause(e)}, b>>)
+           ELSE LET b == RowBad(e)
+                    b2 == IF e.op = "row.preimage"
+                          THEN FirstBad(e.us, LAMBDA i : ~PrimedOperand(e, e.us[i]) \/ PreimageOK(e, i))
+                          ELSE 0
+                IN /\ (IF b = 0 THEN TRUE
+                       ELSE IF b = -1 THEN PrintT(<<"VERDICT", Lines[1].t, l + 1, {"trace.unknown_op"}, 0>>)
+                       ELSE PrintT(<<"VERDICT", Lines[1].t, l + 1, {RowClause(e)}, b>>))
+                   /\ (IF b2 = 0 THEN TRUE
+                       ELSE PrintT(<<"VERDICT", Lines[1].t, l + 1, {"rel.preimage.primed_operand"}, b2>>))
         /\ l' = l + 1
 Consumed == TLCGet("distinct") = NL
 =============================================================================
